@@ -14,12 +14,17 @@
    commits of one task, which leaves that task with rows partly from the killed run and partly
    from the run before - every task the next build reports as executed or unchanged has in each
    product what its function writes from the dependencies as they are when that build ends; by
-   C02_current_unique this is the from-scratch result when every task is so reported.  "Tasks
-   reported before the kill are not executed again" and "then stays quiet" are checked by the
-   crash-injection correspondence (every effect boundary of generated builds); see DESIGN. *)
+   C02_current_unique this is the from-scratch result when every task is so reported.  A task whose
+   SUCCESS report was among the effects performed before the kill is not started again
+   (C05_not_executed_again), and when the recovery build reports every task executed or unchanged
+   the build after it starts nothing and changes nothing (C05_quiet_after_recovery).  All of it
+   for tasks without the persist marker and with no edit between kill and recovery; the
+   crash-injection correspondence (every effect boundary of generated builds) covers the same
+   clauses on the real code, persist tasks included; see DESIGN. *)
 From Verif Require Import Base.Prelude Base.Graph Model.Sorter Model.Expr Model.Engine Model.Crash.
 From Verif Require Import Proofs.EngineTask Proofs.CrashProofs.
-From Verif Require Import Proofs.EngineHistory Proofs.CrashSafety Proofs.CrashRecovery.
+From Verif Require Import Proofs.EngineHistory Proofs.EngineQuiet Proofs.CrashSafety Proofs.CrashRecovery.
+From Verif Require Import Proofs.CrashNoRerun Proofs.CrashQuiet.
 From Verif Require Import Model.EngineRun.
 
 (* applying all effects of a build gives the world the build returns; a process killed after
@@ -132,28 +137,82 @@ Proof.
   intros t T. apply (history_sc is_word lower body defn w t R (PO t T) (NP t T) (WF t T)).
 Qed.
 
+(* "Tasks whose completion had already been reported before the kill are not executed again": the
+   function of a task whose SUCCESS report is among the first k effects is not started by the recovery
+   build (no --force, no function fails, same graph; task ids are not node ids) *)
+Theorem C05_not_executed_again :
+  forall is_word lower body defn c0 c1 ts E desel0 desel1 s0 faults pref0 pref1 w,
+  hreach is_word lower body defn w -> project_ok defn ts ->
+  create_dag is_word lower c0 ts = DagOk E desel0 ->
+  create_dag is_word lower c1 ts = DagOk E desel1 ->
+  from_dag (task_ids ts) E (map (fun t => (tid t, tprio t)) ts) = Some s0 ->
+  NoDup (task_ids ts) ->
+  (forall t, In t ts -> wf_task t) -> (forall t, In t ts -> m_persist t = false) ->
+  (forall i, good_fault (faults i)) ->
+  (forall t u, In t ts -> In u ts -> ~ In (tid t) (prods u) /\ ~ In (tid t) (deps u)) ->
+  force c1 = false ->
+  forall k u, In u ts ->
+  In (EReport (tid u) OSuccess) (firstn k (build_effects is_word lower body c0 ts faults pref0 w)) ->
+  ~ In (Start (tid u))
+       (x_log (build is_word lower body c1 ts nofaults pref1 (crash_world is_word lower body k c0 ts faults pref0 w))).
+Proof.
+  intros is_word lower body defn c0 c1 ts E desel0 desel1 s0 faults pref0 pref1 w R PO HD0 HD1 HF ND WF NP GF IDS NF.
+  apply (no_rerun_after_kill is_word lower body c0 c1 ts E desel0 desel1 s0 faults pref0 pref1 w); auto.
+  intros t T. apply (history_sc is_word lower body defn w t R (PO t T) (NP t T) (WF t T)).
+Qed.
+
+(* "... and then stays quiet": when the recovery build reports every task as executed or unchanged,
+   the build after it (no --force) starts no function, leaves files and database as they are and
+   reports every task unchanged or skipped *)
+Theorem C05_quiet_after_recovery :
+  forall is_word lower body defn c0 c1 c2 ts E desel0 desel1 desel2 s0 faults faults2 pref0 pref1 pref2 k w,
+  hreach is_word lower body defn w -> project_ok defn ts ->
+  create_dag is_word lower c0 ts = DagOk E desel0 ->
+  create_dag is_word lower c1 ts = DagOk E desel1 ->
+  create_dag is_word lower c2 ts = DagOk E desel2 ->
+  from_dag (task_ids ts) E (map (fun t => (tid t, tprio t)) ts) = Some s0 ->
+  NoDup (task_ids ts) ->
+  (forall t, In t ts -> wf_task t) -> (forall t, In t ts -> m_persist t = false) ->
+  (forall i, good_fault (faults i)) ->
+  (forall t u, In t ts -> In u ts -> ~ In (tid t) (prods u) /\ ~ In (tid t) (deps u)) ->
+  force c2 = false ->
+  let wc := crash_world is_word lower body k c0 ts faults pref0 w in
+  let r1 := build is_word lower body c1 ts nofaults pref1 wc in
+  (forall t, In t ts -> exists o, In (tid t, o) (x_reports r1) /\ fresh_outcome o) ->
+  let r2 := build is_word lower body c2 ts faults2 pref2 (x_world r1) in
+  x_log r2 = [] /\ x_world r2 = x_world r1 /\ forall i o, In (i, o) (x_reports r2) -> quiet_outcome o.
+Proof.
+  intros is_word lower body defn c0 c1 c2 ts E desel0 desel1 desel2 s0 faults faults2 pref0 pref1 pref2 k w
+         R PO HD0 HD1 HD2 HF ND WF NP GF IDS NF.
+  apply (quiet_after_recovery is_word lower body c0 c1 c2 ts E desel0 desel1 desel2 s0 faults faults2 pref0 pref1 pref2 k w); auto.
+  intros t T. apply (history_sc is_word lower body defn w t R (PO t T) (NP t T) (WF t T)).
+Qed.
+
 (* a torn crash world exists and the recovery build repairs it: t1 writes 111 from 101, t2 writes
    112 from 111; after a complete build 101 is edited and the next build is killed after 10 effects -
    t2's own row and its row for 111 are from the killed run, its row for 112 from the run before
    (the rows (2,2) (2,111) (2,112) in the second observation); the recovery build reports t1
-   unchanged (3), executes t2 (0) and ends with all rows and files as the uninterrupted build
-   would have left them *)
+   unchanged (3) - it had been reported before the kill and is not executed again -, executes t2 (0)
+   and ends with all rows and files as the uninterrupted build would have left them; the build after
+   it reports both unchanged and performs no effect but the two reports *)
 Local Open Scope N_scope.
 Example C05_torn_rows_recovered :
   let t1 := mkTask 1 1 [101] [111] [] None false [] false 0%Z [] [] in
   let t2 := mkTask 2 1 [111] [112] [] None false [] false 0%Z [] [] in
   let cfg := mkConfig false false None None None in
   let killed := run_hist [] [] [HSet 101 5; HBuild cfg [t2; t1] [] []; HSet 101 6; HCrash 10 cfg [t2; t1] [] [];
-                                HBuild cfg [t2; t1] [] []] in
+                                HBuild cfg [t2; t1] [] []; HBuild cfg [t2; t1] [] []] in
   let whole := run_hist [] [] [HSet 101 5; HBuild cfg [t2; t1] [] []; HSet 101 6; HBuild cfg [t2; t1] [] []] in
   map (fun o => match o with (x, r, _, _, _, e) => (x, r, length e) end) killed
-    = [(0, [(1, 0); (2, 0)], 12%nat); (9, [], 10%nat); (0, [(1, 3); (2, 0)], 7%nat)] /\
-  map (fun o => match o with (_, _, _, d, f, _) => (d, f) end) (skipn 2 killed) =
+    = [(0, [(1, 0); (2, 0)], 12%nat); (9, [], 10%nat); (0, [(1, 3); (2, 0)], 7%nat); (0, [(1, 3); (2, 3)], 2%nat)] /\
+  map (fun o => match o with (_, _, _, d, f, _) => (d, f) end) (firstn 1 (skipn 2 killed)) =
   map (fun o => match o with (_, _, _, d, f, _) => (d, f) end) (skipn 1 whole).
 Proof. vm_compute. split; reflexivity. Qed.
 Local Close Scope N_scope.
 
 Print Assumptions C05_crash_world_shape.
+Print Assumptions C05_not_executed_again.
+Print Assumptions C05_quiet_after_recovery.
 Print Assumptions C05_recovery_leaves_current.
 Print Assumptions C05_effects_refine_build.
 Print Assumptions C05_task_effects_refine.
